@@ -662,6 +662,19 @@ func main() {
 			os.Exit(2)
 		}
 		sum.Cases++
+		if sum.Cases%4 == 0 {
+			// history: a compilation that fails part-way (second group: unknown name; third group: argument index 9) precedes
+			// this case in the process. A failed compilation must leave nothing behind that the next one could see.
+			for _, a := range []*arch.Info{arch.X86_64, arch.ARM} {
+				bad := seccomp.Policy{DefaultAction: seccomp.ActionAllow, Syscalls: []seccomp.SyscallGroup{
+					{Action: seccomp.ActionErrno, Names: []string{"read", "write", "close"}},
+					{Action: seccomp.ActionTrap, Names: []string{"open", "verif_no_such_syscall"}},
+					{Action: seccomp.ActionKillProcess, NamesWithCondtions: []seccomp.NameWithConditions{{Name: "ioctl",
+						Conditions: []seccomp.Condition{{Argument: 9, Operation: seccomp.Equal, Value: 1}}}}}}}
+				seccomp.VerifSetArch(&bad, a)
+				compile(&bad)
+			}
+		}
 		bit := polcase.HasBitOp(&cs.Pol)
 		for k := 0; k < *concs; k++ {
 			c := &polcase.Conc{W: h.W, X32Bit: h.X32Bit, NSys: h.NSys}
